@@ -333,12 +333,37 @@ def ncyc_rules(chk):
                        (x.length() == LinExpr("n") and "where-index" in xp.tags), derived="x len %r" % (x.length(),), loc=ip[0].loc)
                 # the counter starts at the first sample: the peak indices handed to the interpolation begin with index 0 on every path
                 # (inserted when missing -- np.insert(indices, 0, 0) under `indices[0] != 0`)
+                # located wrong instances: the index 0 inserted somewhere else / another index inserted in front (np.insert(nodes, k, v) with
+                # literal k != 0 or v != 0), or inserted exactly when it is already there (`if nodes[0] == 0: insert`)
+                wrong_ = None
+                if not xp.f0:
+                    for e_ in r.events("lib-call", q):
+                        if e_.name == "numpy.insert" and len(e_.args) >= 3 and "where-index" in e_.args[0].tags:
+                            k_, v_ = e_.args[1], e_.args[2]
+                            if (k_.has_const() and k_.const != 0) or (v_.has_const() and v_.const != 0):
+                                wrong_ = (e_.loc, "np.insert(nodes, %s, %s): not the index 0 put in front" % (
+                                    k_.const if k_.has_const() else "?", v_.const if v_.has_const() else "?"))
+                    for n_ in ast.walk(fi.node):
+                        if isinstance(n_, ast.If) and isinstance(n_.test, ast.Compare) and len(n_.test.ops) == 1 and isinstance(n_.test.ops[0], ast.Eq):
+                            a_, b_ = n_.test.left, n_.test.comparators[0]
+                            if isinstance(b_, ast.Subscript):
+                                a_, b_ = b_, a_
+                            if isinstance(a_, ast.Subscript) and isinstance(a_.slice, ast.Constant) and a_.slice.value == 0 and \
+                                    isinstance(b_, ast.Constant) and type(b_.value) in (int, float) and b_.value == 0 and \
+                                    any(isinstance(x, ast.Call) and ast.unparse(x.func).split(".")[-1] == "insert" for st_ in n_.body for x in ast.walk(st_)) and \
+                                    not any(isinstance(x, ast.Call) and ast.unparse(x.func).split(".")[-1] == "insert" for st_ in n_.orelse for x in ast.walk(st_)):
+                                wrong_ = (fi.loc(n_), "the index 0 is inserted exactly when it is already the first node (`%s`), and not when it is missing" %
+                                          " ".join(ast.unparse(n_.test).split()))
                 chk.ob("R-NCYC", cc + "{origin}", "the interpolation nodes begin with index 0 on every path", bool(xp.f0),
-                       derived="first node is 0: %s" % bool(xp.f0), loc=ip[0].loc, inconclusive=xp.indef and not xp.f0)
+                       derived=wrong_[1] if wrong_ else "first node is 0: %s" % bool(xp.f0), loc=wrong_[0] if wrong_ else ip[0].loc,
+                       inconclusive=xp.indef and not xp.f0 and wrong_ is None)
             fp_parts = ip[0].args[2].parts if len(ip) == 1 else None
+            # definite shapes: a progression ("ap"), a progression broken at position k >= 2 ("ap-broken": entries 1..k-1 keep another offset), a
+            # constant divided by a progression ("non-ap"); anything else is not derived
+            definite_ = isinstance(fp_parts, tuple) and fp_parts[:1] in (("ap",), ("ap-broken",), ("non-ap",))
             chk.ob("R-NCYC", cc + "{shift}", "cycle numbers are 0 for the first index and 0.5*k %+g for the k-th (k >= 1)" % shift,
                    fp_parts == ("ap", 0.5, 0.0, shift) or fp_parts == ("ap", 0.5, 0, shift),
-                   derived="cycle numbers %s" % (fp_parts,), loc=ip[0].loc if ip else fi.loc(), inconclusive=not (isinstance(fp_parts, tuple) and fp_parts[:1] == ("ap",)))
+                   derived="cycle numbers %s" % (fp_parts,), loc=ip[0].loc if ip else fi.loc(), inconclusive=not definite_)
             chk.ob("R-NCYC", cc + "{monotone}", "the cycle numbers are nondecreasing (0 <= 0.5 + shift)", isinstance(fp_parts, tuple) and fp_parts[0] == "ap"
                    and fp_parts[2] <= fp_parts[1] + fp_parts[3] and fp_parts[1] >= 0, derived="%s" % (fp_parts,), loc=fi.loc(), nontrivial=False,
                    inconclusive=not (isinstance(fp_parts, tuple) and fp_parts[:1] == ("ap",)))
